@@ -274,12 +274,14 @@ def rule_plumbing(r):
     # table order -> C argument order is R-C09-args / R-C13-order
 
 
+from . import extra3 as _x3
 RULES = [
     ("R-C13-plumbing", 12, "vector expansion and width interpretation keep the declared meaning", rule_plumbing),
     ("R-C13-degree", 90, "return degrees of every model function match the documented scaling", make_rule("R-C13-degree", _c_results)),
     ("R-C13-homogeneous", 38, "no definite inhomogeneity inside the model functions", make_rule("R-C13-homogeneous", _c_results)),
     ("R-C13-order", 150, "C signatures do not contradict the parameter table", make_rule("R-C13-order", _o_results)),
     ("R-C13-unit-type", 100, "unit strings agree with parameter types", rule_unit_type),
+    ("R-C13-limits", 150, "limits of dimensional parameters are scale free (in-scope models)", _x3.rule_c13_limits),
 ]
 
 
